@@ -16,7 +16,7 @@
 (* before the fix: commits (CleanInPlace, QmdReplace); with either TRUE    *)
 (* TLC returns the shortest offending history.                             *)
 (***************************************************************************)
-EXTENDS Passes
+EXTENDS StreamsDefs
 
 CONSTANTS MaxSteps,        \* history length bound
           MaxStreams,      \* streams ever created
@@ -39,26 +39,13 @@ vars == <<heap, streams, pending, execLog, delivered, ncalls, hist>>
 
 ---------------------------------------------------------------------------
 (* pools *)
-Evar == Name("e")
-LMet  == Lam1("e", Meth(Evar, "met", <<>>))
-LCut  == Lam1("e", Cmp(">", Meth(Evar, "met", <<>>), IntC(1)))
-LJets == Lam1("e", Meth(Evar, "jets", <<>>))
 (* a lambda whose nested call gets a default argument filled in on a typed dataset (Jet.pt(a = 1)) *)
-LNest == Lam1("e", Meth(Meth(Evar, "jets", <<>>), "Select", <<Lam1("j", Meth(Name("j"), "pt", <<>>))>>))
-LNestTyped == Lam1("e", Meth(Meth(Evar, "jets", <<>>), "Select", <<Lam1("j", Meth(Name("j"), "pt", <<IntC(1)>>))>>))
 (* a call with a KEYWORD argument whose value is itself a typed call: e.met(a = e.met()); on a typed dataset the keyword *)
 (* moves to its position and the inner call gets its default (the keyword node is a child that is not an expression)  *)
-LKw == Lam1("e", CallK(Attr(Evar, "met"), <<>>, <<"a">>, <<Meth(Evar, "met", <<>>)>>))
-LKwTyped == Lam1("e", Meth(Evar, "met", <<Meth(Evar, "met", <<IntC(4)>>)>>))
 DeriveOps == {<<"Select", LMet>>, <<"Where", LCut>>, <<"SelectMany", LJets>>, <<"Select", LNest>>}
                \cup (IF Focus = "imm" THEN {<<"Select", LKw>>} ELSE {})
 (* what the operator emits for a lambda on a stream of the given item type *)
 (* on a typed dataset Evt.met(a = 4) gets its default filled in, also below the top of the body *)
-LMetTyped == Lam1("e", Meth(Evar, "met", <<IntC(4)>>))
-LCutTyped == Lam1("e", Cmp(">", Meth(Evar, "met", <<IntC(4)>>), IntC(1)))
-Emitted(lam, inType) == IF inType # "Evt" THEN lam
-                        ELSE CASE lam = LNest -> LNestTyped [] lam = LMet -> LMetTyped
-                               [] lam = LCut -> LCutTyped [] lam = LKw -> LKwTyped [] OTHER -> lam
 MDEmpty == Dct(<<>>)
 MDOne   == Dct(<<StrC("m"), IntC(1)>>)
 MDs     == {MDEmpty, MDOne}
@@ -94,13 +81,6 @@ LookupQ(h, n, k) == IF h[n].qmd[k] # 0 THEN h[n].qmd[k]
                     ELSE IF h[n].op \in {"EventDataset", "NameRoot"} THEN 0
                     ELSE LookupQ(h, h[n].src, k)
 
-StreamType(op, lam, inType) ==
-    CASE op = "Where" -> inType
-      [] inType # "Evt" -> "Any"
-      [] op = "Select" /\ lam \in {LMet, LKw} -> "int"
-      [] op = "SelectMany" /\ lam = LJets -> "Jet"
-      [] op = "Select" /\ lam = LNest -> "Iterable[int]"
-      [] OTHER -> "Any"
 
 NStreams == Len(streams)
 Room == NStreams < MaxStreams /\ Len(hist) < MaxSteps
